@@ -2,7 +2,7 @@
    The extracted OCaml driver and the in-Coq replays both call only this. *)
 From Coq Require Import List ZArith NArith Bool.
 From AG Require Import Base.Val Base.Sort Str.MetaVar Str.AnB Str.Substring
-  Rewrite.Indent Rewrite.Template Tree.Tree Tree.Wf Match.MatchNode Match.Prefilter Rule.Rule Rule.Kinds Rule.Traversal Rule.Scan Rule.Eval Rule.Sem.
+  Rewrite.Indent Rewrite.Template Tree.Tree Tree.Wf Match.MatchNode Match.Prefilter Rule.Rule Rule.Kinds Rule.Traversal Rule.Scan Rule.Eval Rule.Sem Front.JsonPrint.
 Import ListNotations.
 Local Open Scope Z_scope.
 
@@ -227,6 +227,12 @@ Definition run_case (fid : Z) (v : val) : val :=
   | 34 => case_wf v
   | 35 => case_kinds v
   | 36 => case_scan v
+  (* 41: (src start end before after) -> display_context: (leading-start trailing-end lines-above) *)
+  | 41 => let d := display_context (gS (gNth 0 v)) (gNat (gNth 1 v)) (gNat (gNth 2 v)) (gNat (gNth 3 v)) (gNat (gNth 4 v)) in
+          VL [vNat (dc_lead d); vNat (dc_trail d); vNat (dc_offset d)]
+  (* 42: (style ((doc ..) ..)) -> bytes written by the JSON printer *)
+  | 42 => VS (run_printer (match gZ (gNth 0 v) with 0%Z => Pretty | 1%Z => Stream | _ => Compact end)
+                          (gList (gList gS) (gNth 1 v)))
   (* 37: pattern -> Pattern::fixed_string *)
   | 37 => VS (fixed_string (g_pattern (vdepth v) (gNth 0 v)))
   | 100 => case_rule_sem v
